@@ -1065,3 +1065,33 @@ def main(ctx):
                  c_do, c_modules, result_edits=True, depth=ctx.pick(3, 4), nodedup_depth=ctx.pick(3, 4),
                  state=lambda c: {k: v for k, v in c.__dict__.items() if k != "Distmod"},
                  must_raise=lambda kind, op: op[0] == "badvec")
+
+    # ------------------------------------------------ long arrays through the vectorised wrappers (mc/longarr.py)
+    from mc.longarr import tiled_elementwise, PERIOD
+    LC = {k: Cosmo(**kw) for k, kw in (("flat", dict(omega_m=0.3)), ("open", dict(omega_m=0.3, omega_l=0.6, flat=False, H0=70.0)),
+                                       ("closed", dict(omega_m=0.4, omega_l=0.8, flat=False, H0=55.0)))}
+
+    def zbase():
+        z = np.linspace(0.0, 5.0, PERIOD)
+        z[7] = 0.0
+        z[11] = z[12]
+        return z
+
+    def zpair():
+        z = zbase()
+        z2 = np.roll(z, 17) + 0.0
+        z2[3] = z[3]                                  # identical pair, and pairs with source in front of the lens
+        return z, z2
+
+    lspecs = {}
+    for ck, cobj in LC.items():
+        for meth in ("Dc", "Dm", "Da", "Dl"):                 # V is documented scalar-only
+            lspecs["%s.%s(0,z)" % (ck, meth)] = ((lambda: (zbase(),)), (lambda z, c=cobj, m=meth: getattr(c, m)(0.0, z)))
+            lspecs["%s.%s(z,z2)" % (ck, meth)] = (zpair, (lambda z, z2, c=cobj, m=meth: getattr(c, m)(np.minimum(z, z2), np.maximum(z, z2))))
+            lspecs["%s.%s(z,5.5)" % (ck, meth)] = ((lambda: (zbase(),)), (lambda z, c=cobj, m=meth: getattr(c, m)(z, 5.5)))
+        for meth in ("Ez_inverse", "dV", "distmod"):
+            lspecs["%s.%s(z)" % (ck, meth)] = ((lambda: (zbase() + 0.01,)), (lambda z, c=cobj, m=meth: getattr(c, m)(z)))
+        lspecs["%s.sigmacritinv(zl,zs)" % ck] = (zpair, (lambda z, z2, c=cobj: c.sigmacritinv(z, z2)))
+        lspecs["%s.sigmacritinv(0.3,zs)" % ck] = ((lambda: (zbase(),)), (lambda z, c=cobj: c.sigmacritinv(0.3, z)))
+        lspecs["%s.sigmacritinv(zl,2)" % ck] = ((lambda: (zbase(),)), (lambda z, c=cobj: c.sigmacritinv(z, 2.0)))
+    tiled_elementwise(ctx, "long-arrays", lspecs, ctx.pick((100000, 1000000), (65536, 100000, 1000000, 1048576, 2000000)))
